@@ -1230,6 +1230,7 @@ def gen_threads(seed, params=None):
         inputs = ['x0', 'x1', fx, fx]
     bodies = []
     outputs = []
+    nested_outs = []
     for i in range(nt):
         body = []
         for j in range(rng.randint(1, 3)):
@@ -1256,6 +1257,7 @@ def gen_threads(seed, params=None):
                     inner.append(['bf', nrel, 'Fok', [i, j], {}, 'METADATA',
                                   True])
                     outputs.append(nrel)
+                    nested_outs.append((i, nrel))
                 funcs[sid] = {'kind': 'sub', 'name': 'n' + sid,
                               'variants': [inner]}
                 body.append(['sb', sid, [i], {}, True])
@@ -1347,6 +1349,17 @@ def gen_threads(seed, params=None):
                             ['qx', rng.choice(['is_dir', 'exists', 'list_dir',
                                                'walk']),
                              rng.choice([d] + ancestors(d))])
+    if r >= P['p_in_sub'] + P['p_in_file'] and spawn[1] is bodies and nt > 1:
+        # ... and at files that another thread's subbuild builds (or reuses
+        # from the cache): visible or not, depending on the schedule
+        for i, nrel in nested_outs:
+            if rng.random() < 0.6:
+                j = rng.choice([k for k in range(nt) if k != i])
+                for _ in range(rng.randint(1, 2)):
+                    bodies[j].insert(
+                        rng.randint(0, len(bodies[j])),
+                        ['qx', rng.choice(['is_file', 'exists', 'get_size',
+                                           'is_file']), nrel])
     if r < P['p_in_sub']:
         funcs['ST'] = {'kind': 'sub', 'name': 'nST', 'variants': [[spawn]]}
         root = [['sb', 'ST', [], {}, True]] + post
